@@ -414,6 +414,23 @@ func c06Run(c *core.Ctx) {
 		}
 		report(kd, d, text, 200+len(text))
 	}
+	// (3c) scale family
+	for i, sp := range gen.Scale(c.Thorough()) {
+		if !c.Mine(int64(i)) || c.Tick() {
+			continue
+		}
+		c.Cur(sp.Name)
+		c.Inc("inputs")
+		c.Inc("scale_programs")
+		kd, d, acc := c06Check(sp.Src, false)
+		if acc {
+			c.Inc("accepted_programs")
+		}
+		if kd != "" && c.ShrinkOK(kd) {
+			pl, _ := json.Marshal(c06Payload{sp.Src})
+			c.Violate(core.Violation{Kind: kd, Config: "scale", Case: sp.Name, Detail: core.Short(d, 700), Payload: pl, Size: 1000 + len(sp.Src)})
+		}
+	}
 	// (4) expression chains as statements (implied parentheses, function/object literals in operands)
 	depth := 2
 	holes := gen.Holes(c.Thorough())
